@@ -20,6 +20,7 @@ import (
 	"sync"
 	"sync/atomic"
 	"unicode"
+	"unicode/utf8"
 
 	"github.com/hattya/go.sh/ast"
 	"github.com/hattya/go.sh/interp"
@@ -1451,7 +1452,7 @@ func (l *lexer) scanCmdSubst(r rune) bool {
 		// nest
 		ll := &lexer{
 			name:     l.name,
-			r:        l.r,
+			r:        l.reader(),
 			cmdSubst: r,
 			token:    make(chan ast.Node),
 			done:     make(chan struct{}),
@@ -1503,6 +1504,29 @@ func (l *lexer) scanCmdSubst(r rune) bool {
 		return true
 	}
 	return false
+}
+
+// reader returns the source of a nested lexer: the source itself, or
+// a view of it through the pending alias values.
+func (l *lexer) reader() io.RuneScanner {
+	if len(l.aliases) == 0 {
+		return l.r
+	}
+	return aliasReader{l}
+}
+
+type aliasReader struct {
+	l *lexer
+}
+
+func (r aliasReader) ReadRune() (rune, int, error) {
+	c, err := r.l.read()
+	return c, utf8.RuneLen(c), err
+}
+
+func (r aliasReader) UnreadRune() error {
+	r.l.unread()
+	return nil
 }
 
 func (l *lexer) linebreak() bool {
